@@ -256,6 +256,28 @@ Theorem C02_tick_mono : forall t now now', now <= now' ->
   orphaner_tick_breaks t now = true -> orphaner_tick_breaks t now' = true.
 Proof. exact tick_mono. Qed.
 
+(* old_orphans_count characterised: in every state of the timed map reached by operations (any
+   clock, lookups in range) each orphaned id is recorded once with its orphaning time, the orphanage
+   holds exactly the ids the untimed model has orphaned, and the count at clock [now] is the number
+   of ids whose orphaning time tm satisfies tm < now - 1 s (or tm = now - 1 s and id <> 32767: the
+   bound `(now - age, i16::MAX)` of the code's range query) *)
+Theorem C02_old_count_char : forall ops, Forall op_in_range (untimed ops) ->
+  let t := fst (th_run th_new ops) in
+  NoDup (map fst (ot_orphans (th_ot t))) /\
+  (forall sid, (exists tm, orphaned_since t sid = Some tm) <->
+               smem sid (hm_orphans (fst (hm_run hm_new (untimed ops)))) = true) /\
+  (forall now, th_old_orphans_count t now = N.of_nat (List.length (old_ids t now))) /\
+  (forall now sid, In sid (old_ids t now) <->
+     exists tm, orphaned_since t sid = Some tm /\
+                (tm < now - old_age_ns \/ (tm = now - old_age_ns /\ sid < 32767))).
+Proof. exact old_count_char. Qed.
+
+(* the orphaner's tick ends the connection iff more than 1024 ids are old in that sense *)
+Theorem C02_tick_char : forall ops now, Forall op_in_range (untimed ops) ->
+  let t := fst (th_run th_new ops) in
+  orphaner_tick_breaks t now = true <-> old_count_threshold < N.of_nat (List.length (old_ids t now)).
+Proof. exact tick_char. Qed.
+
 (* ---- the frame reader on the byte stream (part 6; [parse_frame] = C10's model of
    read_response_frame) ---- exactly 9 + `length` bytes per frame, for any length *)
 Theorem C02_reader_exact : forall f rest, frame_wf f ->
@@ -406,6 +428,14 @@ Proof.
   all: intros e He Hin; cbn in Hin; cbn; tauto.
 Qed.
 
+(* ids 0 and 1 orphaned at clock 5 and 7: at 6 + 1 s only id 0 is old, at 7 + 1 s both (boundary) *)
+Example C02_ex_old_ids :
+  let t := fst (th_run th_new [TOp (OpAlloc 1 1) 0; TOp (OpAlloc 2 2) 0; TOp (OpAlloc 3 3) 0;
+                               TOp (OpOrphan 1) 5; TOp (OpOrphan 2) 7]) in
+  old_ids t (6 + old_age_ns) = [0] /\ old_ids t (7 + old_age_ns) = [1; 0] /\ old_ids t old_age_ns = [] /\
+  orphaned_since t 1 = Some 7 /\ orphaned_since t 2 = None /\ th_old_orphans_count t (7 + old_age_ns) = 2.
+Proof. vm_compute. repeat split; reflexivity. Qed.
+
 Print Assumptions C02_bitmap_alloc.
 Print Assumptions C02_bitmap_full.
 Print Assumptions C02_bitmap_free.
@@ -444,3 +474,5 @@ Print Assumptions C02_tick.
 Print Assumptions C02_tick_mono.
 Print Assumptions C02_sm_no_share.
 Print Assumptions C02_sm_delivery.
+Print Assumptions C02_old_count_char.
+Print Assumptions C02_tick_char.
